@@ -158,6 +158,13 @@ def gen_dt(rng):
     return rng.randint(10000, 60000)
 
 
+def gen_eintr(rng, scn, p=0.15, delays=(1, 5, 50, 500, 5000), nmax=25):
+    """Signals handled by the parent while it waits (EINTR reaching pexpect.utils): must be transparent."""
+    if scn.get('transport') == 'popen' or rng.random() >= p:
+        return
+    scn['eintr'] = sorted([rng.randint(1, nmax), rng.choice(delays)] for _ in range(rng.randint(1, 5)))
+
+
 def generate(rng, profile='engine'):
     """profile: 'engine' (C01-C03), 'eof' (C04)."""
     scn = {'family': 'engine', 'profile': profile}
@@ -300,6 +307,7 @@ def generate(rng, profile='engine'):
             if st.get('at') and st['at'][0] > first_none:
                 st['at'][0] = first_none
     scn['step_cap'] = 60000
+    gen_eintr(rng, scn)
     return scn
 
 
